@@ -227,7 +227,9 @@ package mux
 //@   ensures [C11] root-paths-are-not-preflights: (r.URL.Path == "" || r.URL.Path == "*") ==>
 //@        wh.first["Access-Control-Allow-Methods"] == old(wh.first["Access-Control-Allow-Methods"])
 //@   ensures [C11] several-method-lines: manyMethodLines(r) ==> hdrUnchanged(wh, old(wh.first), old(wh.all))
-//@   ensures [C11] preflight-method: isPreflight(r) && !methodOK(node, r) ==> hdrUnchanged(wh, old(wh.first), old(wh.all))
+// a refused preflight changes nothing but Vary (which names the request header the refusal depended on: D45)
+//@   ensures [C11] preflight-method: isPreflight(r) && !methodOK(node, r) ==>
+//@        (forall k string :: k != "Vary" ==> wh.first[k] == old(wh.first)[k] && wh.all[k] == old(wh.all)[k])
 //@   ensures [C11] preflight-header: isPreflight(r) && !hdrsAllowedFold(c, r) ==>
 //@        wh.first["Access-Control-Allow-Origin"] == old(wh.first)["Access-Control-Allow-Origin"] &&
 //@        wh.first["Access-Control-Allow-Credentials"] == old(wh.first)["Access-Control-Allow-Credentials"]
@@ -250,7 +252,8 @@ package mux
 //@        wh.first["Access-Control-Max-Age"] == old(wh.first)["Access-Control-Max-Age"]
 //@   ensures [C12] vary-origin: !c.deny && !manyMethodLines(r) && originOK(c, r) && (isPreflight(r) ==> methodOK(node, r) && hdrsAllowedFold(c, r)) ==>
 //@        (!c.anyOrigins ==> wh.all["Vary"]["Origin"])
-//@   ensures [C12] vary-preflight: !c.deny && isPreflight(r) && methodOK(node, r) ==> wh.all["Vary"]["Access-Control-Request-Method"]
+// from the property ("Access-Control-Request-Method on preflights"): granted or refused, the answer depended on it
+//@   ensures [C12] vary-preflight: !c.deny && !manyMethodLines(r) && isPreflight(r) ==> wh.all["Vary"]["Access-Control-Request-Method"]
 //@   ensures [C12] vary-headers: !c.deny && isPreflight(r) && methodOK(node, r) && hdrsAllowedFold(c, r) && c.allowHeadersString != "" ==>
 //@        wh.all["Vary"]["Access-Control-Request-Headers"]
 //@   ensures [C12] vary-only-request-names: forall x string :: wh.all["Vary"][x] && !old(wh.all)["Vary"][x] ==>
